@@ -35,7 +35,10 @@ def cases(draw, tier):
     allm = list(names)
     if nm >= 2 and draw(st.booleans()):
         cfg["IDX"] = {"class": "IndexMarket", "tickSize": 1.0, "marketPrice": 100.0, "markets": names[:2]}
-        cfg["simulation"]["markets"].append("IDX")
+        if nm == 3 and draw(st.booleans()):
+            cfg["simulation"]["markets"].insert(2, "IDX")  # listed before a plain market it does not contain
+        else:
+            cfg["simulation"]["markets"].append("IDX")
         allm.append("IDX")
         if draw(st.integers(0, 2)) == 0:
             # an index of indices: ticks after the index it contains, which ticks after the spot markets
